@@ -406,7 +406,48 @@ def layer_b(ctx, report, nfiles):
     report.extra["files_not_certified"] = uncert
 
 
+def layer_levels(ctx, report):
+    """the regenerated repetition-type tests of SchemaHelper (Gen.SchemaLevels) against the real methods, on every
+    path of repetition types up to length 4"""
+    import itertools
+    from fastparquet import parquet_thrift as pt
+    from fastparquet.schema import SchemaHelper
+    paths = [p for L in range(1, 5) for p in itertools.product((0, 1, 2), repeat=L)]
+    reqs, reals = [], []
+    for p in paths:
+        # root + a chain of groups ending in a leaf, element j has repetition type p[j]
+        els = [pt.SchemaElement(name="schema", num_children=1)]
+        names = []
+        for j, rt in enumerate(p):
+            last = j == len(p) - 1
+            nm = f"e{j}"
+            names.append(nm)
+            els.append(pt.SchemaElement(name=nm, repetition_type=rt, num_children=None if last else 1,
+                                        type=pt.Type.INT32 if last else None))
+        try:
+            h = SchemaHelper(els)
+            reals.append((int(bool(h.is_required(names))), int(h.max_definition_level(names)), int(h.max_repetition_level(names))))
+        except Exception as e:  # noqa
+            reals.append(("exc", canon_err(e), str(e)[:60]))
+        reqs.append(f"nested levels path=[{','.join(map(str, p))}]")
+    reps = ctx.driver.ask(reqs) if ctx.model_ok else []
+    for p, real, rep in zip(paths, reals, reps):
+        head, d = parse_reply(rep)
+        model = (int(d.get("required", -1)), int(d.get("maxdef", -1)), int(d.get("maxrep", -1))) if head == "ok" else None
+        report.stream("nested.levels")
+        report.case(("levels", p), nontrivial=len(p) > 1)
+        if model != real:
+            report.corr_break("nested.levels", {"check": "levels", "path": list(p), "model": str(model), "real": str(real), "explained_by_known": False})
+        # the property itself: definition levels are skipped exactly when there are none
+        if real[0] != "exc" and bool(real[0]) != (real[1] == 0):
+            report.violation({"check": "levels", "path": list(p), "what": f"is_required = {bool(real[0])} but max_definition_level = {real[1]} "
+                              "(the level block of a v1 page would be skipped although it exists, or read although it does not)",
+                              "sig": "levels:required-vs-maxdef"})
+    report.count("level-paths", len(paths))
+
+
 def run(ctx, report):
+    layer_levels(ctx, report)
     report.rule = ("(A) random well-formed level/value streams for optional/required LIST<optional/required primitive>, list lengths 0..7, null "
                    "rows, null elements, cut into 1..4 pages at arbitrary entry positions (any / only row starts / only inside rows), fed to the "
                    "real _assemble_objects chained as read_col does, compared with Spec.Dremel and with the model Impl.Assemble; (B) nested "
